@@ -141,6 +141,11 @@ FUNCTIONS = [
         'passed_through': ['db', 'algs'], 'opaque': ['db'], 'objects': {'algs.ssh2kex': {'kex_algorithms': 'List[str]'}},
         'locals': {'additional_notes': 'List[str]'},
         'free': {'client_audit': 'bool', 'algs_to_note': 'List[str]'}, 'out': ['kex_strict_marker', 'algs_to_note', 'additional_notes']}),
+    ('get_level', 'outputbuffer.py', 'OutputBuffer.get_level', {'unit': 'Logic4'}),
+    ('print_filtered', 'outputbuffer.py', 'OutputBuffer._print', {'unit': 'Logic4', 'extract': 'if-test', 'names': ['always_print', 'self', 'level'],
+        'calls': {'self.get_level': 'get_level'}, 'free': {'always_print': 'bool', 'level': 'str', 'self.__level': 'int'}}),
+    ('append_line', 'outputbuffer.py', 'OutputBuffer._print', {'unit': 'Logic4', 'extract': 'block', 'select': [('if-assigning', 'last_entry')],
+        'free': {'buf': 'List[str]', 's': 'str', 'self.line_ended': 'bool'}, 'out': ['buf']}),
     ('is_print_ascii_char', 'utils.py', 'Utils.is_print_ascii', {'unit': 'Logic2', 'extract': 'lambda', 'params': ['int']}),
     # candidates that are outside the subset (kept in the table so that the reason is reported on every run)
     ('ctoi', 'utils.py', 'Utils.ctoi', {}),
@@ -148,7 +153,6 @@ FUNCTIONS = [
     ('parse_float', 'utils.py', 'Utils.parse_float', {}),
     ('fix_patch', 'software.py', 'Software._fix_patch', {}),
     ('bitlength', 'writebuf.py', 'WriteBuf._bitlength', {}),
-    ('get_level', 'outputbuffer.py', 'OutputBuffer.get_level', {}),
 ]
 
 
@@ -722,6 +726,8 @@ class Tr:
     def attribute(self, node, env):
         fn = self.fn
         key = dotted(node)
+        if key == 'sys.maxsize' and 'sys' not in env:
+            return '(9223372036854775807 : Int)', INT      # CPython on a 64-bit platform
         if key is not None and key in env and '.' in key and not key.startswith('self.'):
             base = key.rsplit('.', 1)[0]
             if (base + '!') not in env:
@@ -891,6 +897,17 @@ class Tr:
         return ('(' + ' ++ '.join(out) + ')' if out else '([] : Str)'), STR
 
     def call(self, node, env, binds):
+        kc = self.fn.opts.get('calls', {})
+        if dotted(node.func) in kc:
+            ref = kc[dotted(node.func)]
+            if ref not in self.fn.known or node.keywords:
+                bad(node, 'call of %s, which is not translated' % dotted(node.func))
+            rt, rpartial = self.fn.known[ref]
+            args = [self.expr(a, env, binds)[0] for a in node.args]
+            term = '%s%s' % (ref, ''.join(' ' + a for a in args))
+            if rpartial:
+                return self.partial(node, binds, term), rt
+            return '(%s)' % term, rt
         pc = self.fn.opts.get('pure_calls', {})
         if dotted(node.func) in pc and ('$call:' + dotted(node.func)) in env:
             # a helper the table declares pure (it only reads objects this procedure does not change): its value is a parameter
@@ -1816,11 +1833,17 @@ def translate_entry(name, fname, qual, opts, known):
                 params.append((nm, type_of_name(tn)))
             else:
                 add_param(v, type_of_name(tn))
-        binds = []
-        c, t = tr.expr(hits[0].test, env, binds)
-        if t != BOOL:
-            raise Untranslatable('the test is not a bool')
-        tree = Tr.wrap(binds, ('ret', c, BOOL))
+        def conj(values):
+            # `a and b and …` as nested ifs: a conjunct that can raise is evaluated only when the ones before it hold, as in Python
+            binds = []
+            c, t = tr.expr(values[0], env, binds)
+            if t != BOOL:
+                raise Untranslatable('the test is not a bool')
+            if len(values) == 1:
+                return Tr.wrap(binds, ('ret', c, BOOL))
+            return Tr.wrap(binds, ('if', c, conj(values[1:]), ('ret', 'false', BOOL)))
+        test = hits[0].test
+        tree = conj(list(test.values) if isinstance(test, ast.BoolOp) and isinstance(test.op, ast.And) else [test])
     elif kind == 'lambda':
         lams = [n for n in ast.walk(func) if isinstance(n, ast.Lambda)]
         if len(lams) != 1:
